@@ -91,6 +91,27 @@ def _maps_part(ck, tier):
                     if not np.array_equal(one, want[j:j + 1]):
                         ck.violation("Reflect scalar/vector agreement", {"lo": lo, "hi": hi, "t": ts[j]},
                                      site="Bounds.reflect")
+    # far overshoots (1e3 .. 1e17 interval widths) of boxes whose width is not a power of two: the image is inside the closed limits
+    # (<= 4 ulp at the scale of the limits, the same measure LimitsTrace.tla uses), and where the fold count is still exact in doubles
+    # (< 2^53) folding the image's mirror point gives the same image
+    far = 0
+    for lo_, w_ in ((-0.3, 0.9), (2.0, 0.3), (-1000.0, 3.7), (1e-3, 7e-4), (-5e5, 1.3e5)):
+        hi_ = lo_ + w_
+        b1 = Bounds(lower=np.array([lo_]), upper=np.array([hi_]))
+        for k in (3, 6, 9, 11, 13, 15, 17):
+            mult = rng.uniform(1.0, 9.0, size=40) * 10.0 ** k * rng.choice([-1.0, 1.0], size=40)
+            ts_ = lo_ + mult * w_
+            img = np.array([float(b1.reflect(np.array([t]))[0]) for t in ts_])
+            img2, sg = zip(*[(float(a[0]), float(c[0])) for a, c in (b1.reflect_momenta(np.array([t])) for t in ts_)])
+            far += ts_.size
+            ck.case(("far", lo_, w_, k))
+            exs = [_ulps_excess(v, lo_, hi_) for v in list(img) + list(img2)]
+            if max(exs) > 4 or any(abs(c) != 1.0 for c in sg):
+                j = int(np.argmax(exs)) % ts_.size
+                ck.violation("Reflect image inside the closed limits however far the point overshoots (<= 4 ulp at the scale of the limits)",
+                             {"lower": lo_, "upper": hi_, "t": float(ts_[j]), "overshoot_in_widths": float(mult[j]), "image": float(img[j]),
+                              "image_reflect_momenta": float(img2[j]), "ulps_outside": int(max(exs))}, site="Bounds.reflect:far")
+    ck.count("maps", "far_overshoot_probes", far)
     ck.count("maps", "impl_map_calls", n)
     ck.sample({"part": "maps", "box": [r.printed[0]["lo"], r.printed[0]["hi"]], "img_head": r.printed[0]["img"][:12]})
 
